@@ -144,7 +144,7 @@ def unfold_any(sev, env, iface_t, a, impls):
         for cl in sev.ex.db.wfalso.get(m.types[E].get('name', ''), []):
             e2 = env.bind('self', Val(c, [ref]))
             body = z3.And(body, sev.eval_bool(cl.ast, e2))
-        env.st.assume(z3.Implies(z3.And(m.any_is(c, a), wf(a)), z3.And(ref != 0, body)))
+        env.live.assume(z3.Implies(z3.And(m.any_is(c, a), wf(a)), z3.And(ref != 0, body)))
 
 
 def sf_wf(sev, env, args):
@@ -191,49 +191,51 @@ def psum_fn(sev):
     return m.uf('psum', z3.ArraySort(m.Int, m.Int), m.Int, m.Int)
 
 
-def psum(sev, env, f, n):
-    """Sum_{i<n} f[i] with a one-step unfolding added to the state at creation (fuel 1)."""
-    ps = psum_fn(sev)
+def _sum_term(sev, env, ps, f, n, origin):
+    """ps(f, n) with: one-step unfolding (fuel 1), the non-negativity lemma instance, and extensionality
+    instances against the earlier sums of the same origin on this path (targeted, no global axiom)"""
     t = ps(f, n)
-    st = env.st
-    u1 = z3.Implies(n <= 0, t == 0)
+    live = env.live
+    zero = 0
+    u1 = z3.Implies(n <= 0, t == zero)
     u2 = z3.Implies(n > 0, t == ps(f, n - 1) + z3.Select(f, n - 1))
+    i = z3.Int('i!ext')
+    nonneg = z3.Implies(forall([i], z3.Implies(z3.And(0 <= i, i < n), z3.Select(f, i) >= zero)), t >= zero)
     if env.bound:
-        bs = list(env.bound)
-        st.assume(forall(bs, z3.And(u1, u2), patterns=[t]))
-    else:
-        st.assume(u1)
-        st.assume(u2)
+        live.assume(forall(list(env.bound), z3.And(u1, u2), patterns=[t]))
+        sev.ex.uses_psum = True
+        return t
+    live.assume(u1)
+    live.assume(u2)
+    live.assume(nonneg)
+    reg = live.psums.setdefault(origin, [])
+    key = (f.get_id(), n.get_id())
+    if all(k != key for (k, _, _) in reg):
+        for (k2, f2, n2) in reg[-6:]:
+            if f2.get_id() == f.get_id():
+                continue
+            for m_ in (n2, n):
+                hyp = forall([i], z3.Implies(z3.And(0 <= i, i < m_), z3.Select(f, i) == z3.Select(f2, i)))
+                live.assume(z3.Implies(hyp, ps(f, m_) == ps(f2, m_)))
+                # equal from m_ on: differences of the sums are preserved (ext-from), both directions of lengths
+            lo, hi = n2, n
+            hyp2 = forall([i], z3.Implies(z3.And(lo <= i, i < hi), z3.Select(f, i) == z3.Select(f2, i)))
+            live.assume(z3.Implies(z3.And(0 <= lo, lo <= hi, hyp2), ps(f, hi) - ps(f2, hi) == ps(f, lo) - ps(f2, lo)))
+            hyp3 = forall([i], z3.Implies(z3.And(hi <= i, i < lo), z3.Select(f, i) == z3.Select(f2, i)))
+            live.assume(z3.Implies(z3.And(0 <= hi, hi <= lo, hyp3), ps(f, lo) - ps(f2, lo) == ps(f, hi) - ps(f2, hi)))
+        reg.append((key, f, n))
     sev.ex.uses_psum = True
     return t
 
 
+def psum(sev, env, f, n, origin='?'):
+    """Sum_{i<n} f[i] (integers)"""
+    return _sum_term(sev, env, psum_fn(sev), f, n, ('i', origin))
+
+
 def psum_axioms(sev):
-    """lemmas about psum (proved by induction in the lemma check, see lemmas.py)"""
-    m = sev.m
-    ps = psum_fn(sev)
-    A = z3.ArraySort(m.Int, m.Int)
-    f, g = z3.Consts('f!ps g!ps', A)
-    n, i = z3.Ints('n!ps i!ps')
-    ax = []
-    # extensionality on a prefix
-    ax.append(forall([f, g, n], z3.Implies(forall([i], z3.Implies(z3.And(0 <= i, i < n), z3.Select(f, i) == z3.Select(g, i))),
-                                             ps(f, n) == ps(g, n)), patterns=[z3.MultiPattern(ps(f, n), ps(g, n))]))
-    # equal from k on: the difference of the sums is the difference of the prefixes
-    k = z3.Int('k!ps')
-    ax.append(z3.ForAll([f, g, n, k], z3.Implies(z3.And(0 <= k, k <= n, z3.ForAll([i], z3.Implies(z3.And(k <= i, i < n), z3.Select(f, i) == z3.Select(g, i)))),
-                                                ps(f, n) - ps(g, n) == ps(f, k) - ps(g, k)),
-                        patterns=[z3.MultiPattern(ps(f, n), ps(g, n), ps(f, k), ps(g, k))]))
-    # the same two lemmas for real-valued sums
-    rs = rpsum_fn(sev)
-    RA = z3.ArraySort(m.Int, m.Real)
-    rf, rg = z3.Consts('rf!ps rg!ps', RA)
-    ax.append(z3.ForAll([rf, rg, n], z3.Implies(z3.ForAll([i], z3.Implies(z3.And(0 <= i, i < n), z3.Select(rf, i) == z3.Select(rg, i))),
-                                               rs(rf, n) == rs(rg, n)), patterns=[z3.MultiPattern(rs(rf, n), rs(rg, n))]))
-    # non-negative terms give a non-negative, monotone sum
-    ax.append(forall([f, n], z3.Implies(forall([i], z3.Implies(z3.And(0 <= i, i < n), z3.Select(f, i) >= 0)), ps(f, n) >= 0),
-                        patterns=[ps(f, n)]))
-    return ax
+    """no global lemmas: extensionality / non-negativity are instantiated per sum term (see _sum_term)"""
+    return []
 
 
 def rpsum_fn(sev):
@@ -241,19 +243,9 @@ def rpsum_fn(sev):
     return m.uf('rpsum', z3.ArraySort(m.Int, m.Real), m.Int, m.Real)
 
 
-def rpsum(sev, env, f, n):
-    ps = rpsum_fn(sev)
-    t = ps(f, n)
-    st = env.st
-    u1 = z3.Implies(n <= 0, t == 0)
-    u2 = z3.Implies(n > 0, t == ps(f, n - 1) + z3.Select(f, n - 1))
-    if env.bound:
-        st.assume(forall(list(env.bound), z3.And(u1, u2), patterns=[t]))
-    else:
-        st.assume(u1)
-        st.assume(u2)
-    sev.ex.uses_psum = True
-    return t
+def rpsum(sev, env, f, n, origin='?'):
+    """Sum_{i<n} f[i] (reals)"""
+    return _sum_term(sev, env, rpsum_fn(sev), f, n, ('r', origin))
 
 
 def _rat_array(sev, env, s):
@@ -271,7 +263,7 @@ def sf_sumRats(sev, env, args):
     """sumRats(s, n): sum of rat(s[i]) for i < n (s: []*big.Rat)"""
     s, n = args
     refs, hr, i, off = _rat_array(sev, env, s)
-    return rpsum(sev, env, z3.Lambda([i], z3.Select(hr, z3.Select(refs, add0(off, i)))), sev.term(n))
+    return rpsum(sev, env, z3.Lambda([i], z3.Select(hr, z3.Select(refs, add0(off, i)))), sev.term(n), 'sumRats:' + s.t)
 
 
 def sf_sumRatsTimes(sev, env, args):
@@ -282,13 +274,13 @@ def sf_sumRatsTimes(sev, env, args):
     if z3.is_int(ct):
         ct = z3.ToReal(ct)
     nt = sev.term(n)
-    t = rpsum(sev, env, z3.Lambda([i], z3.Select(hr, z3.Select(refs, add0(off, i))) * ct), nt)
-    plain = rpsum(sev, env, z3.Lambda([i], z3.Select(hr, z3.Select(refs, add0(off, i)))), nt)
+    t = rpsum(sev, env, z3.Lambda([i], z3.Select(hr, z3.Select(refs, add0(off, i))) * ct), nt, 'sumRatsTimes:' + s.t)
+    plain = rpsum(sev, env, z3.Lambda([i], z3.Select(hr, z3.Select(refs, add0(off, i)))), nt, 'sumRats:' + s.t)
     lem = t == ct * plain
     if env.bound:
-        env.st.assume(forall(list(env.bound), lem))
+        env.live.assume(forall(list(env.bound), lem))
     else:
-        env.st.assume(lem)
+        env.live.assume(lem)
     sev.ex.trusted.add('lemma: multiplication distributes over a finite sum (sumRatsTimes)')
     return t
 
@@ -312,13 +304,13 @@ def _senders_term_array(sev, env, s, name, monleaf='Monetary', nameleaf='Name'):
 def sf_sumMon(sev, env, args):
     """sumMon(s, n): sum of val(s[i].Monetary) for i < n  (s: []Sender or []Receiver)"""
     s, n = args
-    return psum(sev, env, _senders_term_array(sev, env, s, None), sev.term(n))
+    return psum(sev, env, _senders_term_array(sev, env, s, None), sev.term(n), 'sumMon:' + s.t)
 
 
 def sf_sumMonBy(sev, env, args):
     """sumMonBy(s, n, name): sum of val(s[i].Monetary) for i < n with s[i].Name == name"""
     s, n, name = args
-    return psum(sev, env, _senders_term_array(sev, env, s, sev.term(name)), sev.term(n))
+    return psum(sev, env, _senders_term_array(sev, env, s, sev.term(name)), sev.term(n), 'sumMonBy:%s:%s' % (s.t, sev.term(name)))
 
 
 def sf_sumMonNot(sev, env, args):
@@ -333,7 +325,7 @@ def sf_sumMonNot(sev, env, args):
     hi = env.st.heap('H|bigint||Int')
     i = z3.Int('i!sm')
     body = z3.If(z3.Select(nm, add0(off, i)) != sev.term(name), z3.Select(hi, z3.Select(mon, add0(off, i))), z3.IntVal(0))
-    return psum(sev, env, z3.Lambda([i], body), sev.term(n))
+    return psum(sev, env, z3.Lambda([i], body), sev.term(n), 'sumMonNot:%s:%s' % (s.t, sev.term(name)))
 
 
 def sf_sumVals(sev, env, args):
@@ -346,13 +338,13 @@ def sf_sumVals(sev, env, args):
     refs = z3.Select(env.st.heap(ex.aname(E, '', 'Int')), arr)
     hi = env.st.heap('H|bigint||Int')
     i = z3.Int('i!sv')
-    return psum(sev, env, z3.Lambda([i], z3.Select(hi, z3.Select(refs, add0(off, i)))), sev.term(n))
+    return psum(sev, env, z3.Lambda([i], z3.Select(hi, z3.Select(refs, add0(off, i)))), sev.term(n), 'sumVals:%s:%s' % (s.t, z3.simplify(arr)))
 
 
 def sf_sumAmounts(sev, env, args):
     """sumAmounts(p, n): sum of val(p[i].Amount) for i < n (p: []Posting)"""
     s, n = args
-    return psum(sev, env, _senders_term_array(sev, env, s, None, monleaf='Amount'), sev.term(n))
+    return psum(sev, env, _senders_term_array(sev, env, s, None, monleaf='Amount'), sev.term(n), 'sumAmounts:' + s.t)
 
 
 BUILTINS = {
